@@ -22,6 +22,37 @@ CHECKS = {
               "operation histories and schedule prefixes as solver variables"),
     "C18": _c("Every bounded history with listeners on all contexts yields exactly the model's event sequence per context.",
               "operation histories as solver variables"),
+    "C05": _c("Every tree shape up to the bound, every method-presence pattern (incl. inherited methods) and every schedule prefix yields the documented "
+              "phase order; every acyclic sibling wait pattern among three siblings completes.",
+              "tree shape, component programs and schedule prefix as solver variables"),
+    "C06": _c("For every placement of one matching publication among non-matching ones, every waiter timing and every deviation-bounded schedule the "
+              "waiter is released exactly by the match with the published object; bursts of 0..60 unrelated publications never lose the wake-up.",
+              "publication sequences, burst length and schedule deviations as solver variables"),
+    "C07": _c("For every tree shape, failing component, phase and moment (and stalled service start-ups) startup aborts with the precise "
+              "ComponentStartError and leaves nothing running; symbolic phase durations against a symbolic timeout obey the critical-path recurrence.",
+              "fault placement and schedule deviations as solver variables; durations and timeout as symbolic integers (timer order decided by z3)"),
+    "C08": _c("For every order of resources and service tasks, every teardown_action kind and every deviation-bounded schedule each task and its "
+              "context are finished before earlier callbacks run; crashes escape the root context.",
+              "program shape, teardown_action kind and schedule deviations as solver variables"),
+    "C09": _c("For every combination of spawn API, spawn site, task outcome, handler verdict and deviation-bounded schedule, with an observer after every "
+              "scheduler step, the handle set is exact, contexts hang under the factory's, teardown waits and errors are kept.",
+              "task programs and schedule deviations as solver variables"),
+    "C10": _c("Every history of 4-5 stream/dispatch operations over two subscribers and two channels delivers exactly the model's events per subscriber.",
+              "operation histories as solver variables"),
+    "C11": _c("For five kinds of owner classes, two instances plus a shallow copy, and every permutation of first accesses, all channels are distinct, "
+              "correctly typed and deliver only their own events.",
+              "owner kind and access permutation as solver variables"),
+    "C12": _c("Every 3-4 step enter/leave/spawn program of a task, run beside a second task, children and a canceller under deviation-bounded schedules, "
+              "keeps current_context() equal to the task's shadow stack top.",
+              "per-task programs, cancellation moment and schedule deviations as solver variables"),
+    "C13": _c("The full state x operation matrix (sequences of 2-3 operations in 7 lifecycle states) matches the allowed/forbidden table.",
+              "lifecycle state and operation sequence as solver variables"),
+    "C17": _c("merge_config agrees with the reference merge and leaves its arguments untouched for every pair of selector-built arguments; integer leaves "
+              "symbolic in a second harness; symbolic keys in a bug-hunting-only harness.",
+              "argument structure as solver variables; leaf integers and keys symbolic under full tracing"),
+    "C19": _c("For every signature shape, annotation style, dependency state and call site the injected call equals the explicit-lookup call; two "
+              "concurrent injected calls in different contexts stay separate under all schedule prefixes.",
+              "signature/annotation/context-state selectors and schedule prefix as solver variables"),
 }
 
 _PENDING = "check not built yet in this round (planned: DESIGN.md section 7); not claimed until it runs"
